@@ -165,13 +165,13 @@ func (c *codec) DiscardBody(header *Header, source io.Reader) (err error) {
 		return nil
 	}
 	count := int64(header.BodyLength)
-	switch s := source.(type) {
-	case io.Seeker:
-		_, err = s.Seek(count, io.SeekCurrent)
-	default:
-		_, err = io.CopyN(ioutil.Discard, s, count)
+	if s, ok := source.(io.Seeker); ok {
+		if _, err = s.Seek(count, io.SeekCurrent); err == nil {
+			return nil
+		}
+		// not every Seeker can seek (an *os.File may be a pipe or a socket): read the body instead
 	}
-	if err != nil {
+	if _, err = io.CopyN(ioutil.Discard, source, count); err != nil {
 		err = fmt.Errorf("cannot discard body; %w", err)
 	}
 	return err
